@@ -575,6 +575,9 @@ func (g *c01Gen) atom(store int, depth int, dotted bool) *c01Filter {
 		l, sym, ty := g.lhs(store, depth, dotted)
 		whole := sym == nil || sym.whole
 		op := g.opFor(ty, whole)
+		if !whole && (op == "contains" || op == "ncontains" || op == "icontains" || op == "nicontains") {
+			op = g.pickS(c01CmpOps) // FormatFloat of arbitrary floats is outside the model
+		}
 		if l.k == "cnt" || l.k == "cntq" {
 			lit := &c01Lit{k: 'I', i: g.pickI([]int64{0, 1, 2, 3, 4, -1})}
 			if g.r.chance(15) {
